@@ -25,6 +25,8 @@ func init() {
 	register("B7", "every variable the loop sets per iteration is saved before the loop and restored by a deferred call, key for key", runB7)
 	register("B8", "capture writes nothing and binds exactly what its body rendered; assign binds exactly what it evaluated, under the parsed name", runB8)
 	register("B9", "include joins the evaluated string with the includer's directory, reads the disk before the cache, renders with a fresh copy of the live variables and returns every error", runB9)
+	register("B13", "cycle keeps one position per loop and group: it reads the group's position n, stores n+1, and emits values[n mod len(values)]", runB13)
+	register("B9v", "an included template is rendered with a new map filled from the includer's live variables, and with the includer's configuration", runB9v)
 	register("B10", "forloop fields are the stated linear functions of the iteration counter and the length: index=i+1, index0=i, rindex=l-i, rindex0=l-i-1, length=l, first iff i=0, last iff i=l-1, for i=0..l-1 step 1", runB10)
 	register("B11", "the iterator wrappers compute the stated index maps: reverse -> len-1-i, offset -> i+n with length max(0,len-n), limit -> i with length min(n,len)", runB11)
 }
@@ -1050,6 +1052,37 @@ func runB8(p *an.Prog, r *an.Result) {
 			}
 		}
 	}
+	// InnerString renders the body into a buffer of its own
+	if is := p.Func("(render.rendererContext).InnerString"); is == nil {
+		r.Bad("(render.rendererContext).InnerString", "not found", token.NoPos, "anchor not resolved")
+	} else {
+		rc := callsNamed(is, "(render.rendererContext).RenderChildren")
+		if len(rc) != 1 {
+			r.Bad(an.FuncName(is), "RenderChildren calls", an.FuncPos(is), fmt.Sprintf("expected one, found %d", len(rc)))
+		} else {
+			w := an.Strip(rc[0].Call.Args[len(rc[0].Call.Args)-1])
+			fresh := true
+			for _, o := range an.Origins(w, an.StepValue) {
+				if _, ok := o.(*ssa.Alloc); !ok {
+					fresh = false
+				}
+			}
+			// and what is returned is that buffer's content
+			retOK := false
+			an.EachInstr(is, func(in ssa.Instruction) {
+				if ret, ok := in.(*ssa.Return); ok {
+					if c := an.CallOf(ret.Results[0]); c != nil && an.CallName(c) == "(*bytes.Buffer).String" && an.Strip(c.Args[0]) == w {
+						retOK = true
+					}
+				}
+			})
+			if fresh && retOK {
+				r.OK(an.FuncName(is), "renders the body into a buffer allocated by this call and returns its content", rc[0].Pos(), "nested and later captures cannot see or clobber it")
+			} else {
+				r.Bad(an.FuncName(is), "body not rendered into a buffer of its own", rc[0].Pos(), fmt.Sprintf("InnerString must render into a buffer allocated by that very call (fresh: %v) and return exactly its content (%v): a shared or recycled buffer lets a nested capture, or an earlier failed render, change what the variable holds", fresh, retOK))
+			}
+		}
+	}
 	// Set is a plain store into the single per-render map; Get reads it
 	if set := p.Func("(render.rendererContext).Set"); set != nil {
 		ok := false
@@ -1138,6 +1171,16 @@ func runB9(p *an.Prog, r *an.Result) {
 				}
 			}
 		}
+	}
+	// the expression evaluated is the whole tag argument, unmodified
+	okArgs := false
+	for _, ev := range append(callsNamed(fn, "(render.Context).EvaluateString"), callsNamed(fn, "(render.Context).Evaluate")...) {
+		if c := an.CallOf(ev.Call.Args[0]); c != nil && an.CallName(c) == "(render.Context).TagArgs" {
+			okArgs = true
+		}
+	}
+	if !okArgs {
+		r.Bad(name, "include does not evaluate the tag arguments as they are", an.FuncPos(fn), "the include expression must be ctx.TagArgs() itself: cutting or rewriting it changes which file a filtered expression names")
 	}
 	if okJoin && okDir && okRel {
 		r.OK(name, "RenderFile(Join(Dir(SourceFile()), evaluated string))", rf[0].Pos(), "path relative to the includer's directory; argument checked to be a string")
@@ -1794,4 +1837,101 @@ func runB11(p *an.Prog, r *an.Result) {
 		})
 	}
 	r.Floor("wrapper methods", 8)
+}
+
+func runB9v(p *an.Prog, r *an.Result) {
+	rfn := p.Func("(render.rendererContext).RenderFile")
+	if rfn == nil {
+		r.Bad("(render.rendererContext).RenderFile", "not found", token.NoPos, "anchor not resolved")
+		return
+	}
+	rname := an.FuncName(rfn)
+	rc := callsNamed(rfn, "render.Render")
+	if len(rc) != 1 {
+		r.Bad(rname, "Render calls", an.FuncPos(rfn), fmt.Sprintf("expected one render.Render call, found %d", len(rc)))
+		return
+	}
+	bm := rc[0].Call.Args[2]
+	fresh := true
+	for _, o := range an.Origins(bm, an.StepValue) {
+		if _, ok := o.(*ssa.MakeMap); !ok {
+			fresh = false
+		}
+	}
+	filled := false
+	an.EachInstr(rfn, func(in ssa.Instruction) {
+		if rg, ok := in.(*ssa.Range); ok && strings.HasSuffix(describe(p, rg.X), "ctx.bindings") {
+			filled = true
+		}
+	})
+	okCfg := strings.HasSuffix(describe(p, rc[0].Call.Args[3]), "ctx.config")
+	if fresh && filled && okCfg {
+		r.OK(rname, "renders with a new map filled from the live variables and the caller's config", rc[0].Pos(), "make + range over c.ctx.bindings; config passed through")
+	} else {
+		r.Bad(rname, "include bindings/config", rc[0].Pos(), fmt.Sprintf("the included template must be rendered with a map made here (%v), filled from the includer's current variables (%v), and the includer's configuration (%v)", fresh, filled, okCfg))
+	}
+}
+
+func runB13(p *an.Prog, r *an.Result) {
+	roles := GetRoles(p)
+	t := tagByName(roles, "cycle")
+	if t == nil || t.Renderer == nil {
+		r.Bad("tag:cycle", "registration", token.NoPos, "cycle tag not resolved")
+		return
+	}
+	fn := t.Renderer
+	name := roles.Label(fn)
+	var upd *ssa.MapUpdate
+	an.EachInstr(fn, func(in ssa.Instruction) {
+		if mu, ok := in.(*ssa.MapUpdate); ok {
+			upd = mu
+		}
+	})
+	if upd == nil {
+		r.Bad(name, "no position update", an.FuncPos(fn), "the cycle position is never advanced")
+		return
+	}
+	// n: the lookup of the same key in the same map
+	var n ssa.Value
+	an.EachInstr(fn, func(in ssa.Instruction) {
+		if lk, ok := in.(*ssa.Lookup); ok && lk.X == upd.Map && eqVal(lk.Index, upd.Key) && !lk.CommaOk {
+			n = lk
+		}
+	})
+	if n == nil {
+		r.Bad(name, "position not read from the same group", upd.Pos(), "the stored position must be derived from the group's current position")
+		return
+	}
+	r.Counts["cycle facts"]++
+	if linOf(upd.Value, 0).is(1, map[ssa.Value]int64{n: 1}) {
+		r.OK(name, "position[group] = n + 1", upd.Pos(), "linear normal form over the position read")
+	} else {
+		r.Bad(name, "stored position is not n + 1", upd.Pos(), "all cycle tags of one group in a loop share one position; it must advance by exactly one per tag, whatever the tag's own number of values")
+	}
+	// the key is the parsed group
+	if strings.HasSuffix(describe(p, upd.Key), ".Group") {
+		r.OK(name, "keyed by the cycle's group", upd.Pos(), "")
+	} else {
+		r.Bad(name, "not keyed by the cycle's group", upd.Pos(), "")
+	}
+	// emitted value: values[n % len(values)]
+	okEmit := false
+	for _, ws := range callsNamed(fn, "io.WriteString") {
+		if u, ok := ws.Call.Args[1].(*ssa.UnOp); ok {
+			if ia, ok := u.X.(*ssa.IndexAddr); ok && strings.HasSuffix(describe(p, ia.X), ".Values") {
+				if b, ok := ia.Index.(*ssa.BinOp); ok && b.Op == token.REM && b.X == n {
+					if c := an.CallOf(b.Y); c != nil && an.CallName(c) == "builtin.len" && eqVal(c.Args[0], ia.X) {
+						okEmit = true
+					}
+				}
+			}
+		}
+	}
+	r.Counts["cycle facts"]++
+	if okEmit {
+		r.OK(name, "writes values[n % len(values)]", an.FuncPos(fn), "")
+	} else {
+		r.Bad(name, "does not write values[n % len(values)]", an.FuncPos(fn), "round-robin over the tag's values")
+	}
+	r.Floor("cycle facts", 2)
 }
